@@ -376,6 +376,8 @@ func PrePassShape(p *load.Prog, r *oblig.Report, rule string) *PrePass {
 		break
 	}
 	var list ssa.Value
+	implicitBlank := false
+	var storeBlock *ssa.BasicBlock
 	var hdr *ssa.BasicBlock
 	var cleaned ssa.Value
 	var back interface{ Pos() token.Pos }
@@ -499,6 +501,11 @@ func PrePassShape(p *load.Prog, r *oblig.Report, rule string) *PrePass {
 			if lc, isCall := mk.Len.(*ssa.Call); isCall {
 				if bi, isB := lc.Common().Value.(*ssa.Builtin); isB && bi.Name() == "len" && stdCall(c.res(lc.Common().Args[0]), "strings", "Split") != nil {
 					sized = true
+					// a fresh list with one empty slot per line: a line that is skipped (blank, comment) stays ""
+					if loopLeftOnlyFromHeader(hdr) && !uncond {
+						uncond = true
+						implicitBlank, storeBlock = true, st.Block()
+					}
 				}
 			}
 		}
@@ -562,6 +569,13 @@ func PrePassShape(p *load.Prog, r *oblig.Report, rule string) *PrePass {
 	}
 	// (2) every alternative of the cleaned line
 	alts := c.alternatives(cleaned, 0)
+	if implicitBlank {
+		// the slot is written only under the conditions of the store; otherwise it keeps its initial ""
+		storeConds := c.condsOf(storeBlock)
+		for i := range alts {
+			alts[i].conds = append(append([]string{}, alts[i].conds...), storeConds...)
+		}
+	}
 	okPrefix, nonEmpty, untrimmed := true, 0, ""
 	cutSets := map[string]bool{}
 	first := true
@@ -636,7 +650,7 @@ func PrePassShape(p *load.Prog, r *oblig.Report, rule string) *PrePass {
 			}
 		}
 		_ = pos
-		if empty {
+		if empty || implicitBlank {
 			blanked = true // some alternative is ""; it is the only one left when every kept alternative excludes the test
 		}
 		if !empty && !neg {
